@@ -86,7 +86,7 @@ def build_h1():
 
 
 def specs(tier):
-    return [Spec("h1_violation_predicate", build_h1(), cfg=cfg(), unwind=5, timeout=600,
+    return [Spec("h1_violation_predicate", build_h1(), cfg=cfg(), unwind=5, timeout=1800,
                  desc="real WithReserveHandler::has_reserve_violation; journal scan and planner are solver-chosen oracles",
                  bounds={"candidates": 2, "value_bits": 8})]
 
